@@ -1,10 +1,10 @@
 #!/bin/bash
 # usage: seedtest.sh <prop> <patch.diff>   - runs ./check <prop> against a scratch worktree of /repo HEAD with the patch applied
 PROP="$1"; PATCH="$2"
-WT=/tmp/wt_seedtest
-OUT=/tmp/seedtest_out
+WT=/tmp/wt_seedtest_$$
+OUT=/tmp/seedtest_out_$$
 cd /repo && git worktree remove --force $WT 2>/dev/null; git worktree add -f $WT HEAD --detach -q || exit 2
 mkdir -p $OUT && cp /verif/props.json /verif/obligations.lock /verif/known_findings.json $OUT/
 cd $WT && git apply "$PATCH" || { echo "APPLY FAILED"; exit 2; }
 cd /verif && VERIF_REPO=$WT VERIF_OUT=$OUT ./check $PROP --tier quick 2>&1 | grep -v "^KNOWN" | tail -6
-cd /repo && git worktree remove --force $WT
+cd /repo && git worktree remove --force $WT; rm -rf $OUT
